@@ -34,7 +34,7 @@ NOT_ASSERTED = "not_asserted"
 # ------------------------------------------------------------------ vocabulary (no keyword-shaped words: that is C06's subject)
 ATOMS = ["INT", "STRING", "BIGINT", "int", "string", "double", "BOOLEAN", "DATE", "timestamp", "float", "INT64", "BOOL",
          "binary", "tinyint", "text", "Varchar"]
-FIELDS = ["a", "b", "c1", "year", "place", "details", "x_y", "Id", "f", "g2", "lat", "lon"]
+FIELDS = ["a", "b", "c1", "year", "place", "details", "x_y", "Id", "f", "g2", "lat", "lon", "array_len", "arrays", "map_id", "struct_no"]
 TWO_WORD = [("double", "precision"), ("character", "varying"), ("long", "varchar"), ("long", "raw"), ("national", "character"),
             ("bigint", "unsigned"), ("int", "unsigned"), ("DOUBLE", "PRECISION"), ("CHARACTER", "VARYING")]
 SIZED_BASES = ["varchar", "VARCHAR", "char", "numeric", "decimal", "DECIMAL", "number", "NUMBER", "varchar2", "VARCHAR2", "nvarchar",
